@@ -591,12 +591,16 @@ ADDED3 = {
 
 
 ADDED4 = {
+    "C01": "five UTC-offset classes of timestamps with a harness-side "
+           "datetime printer (CimWireMCDtTrunc must fail), reals with a "
+           "one-digit significand and an exponent.",
     "C02": "response headers the client converts to numbers (22 numeric "
            "lexeme classes in WBEMServerResponseTime / Content-Length; stage "
            "`header`, leak RespTimeInt).",
     "C03": "arrays of reference values in method parameters (legacy "
            "configuration WireOpsImplLegacyRefArray must fail), header values "
            "combining edge blanks with %-escapes.",
+    "C04": "(round 5) datetime values at the edges of the format.",
     "C06": "array inputs judged item by item (ArrFails over 28 scalar value "
            "classes x 14 declared types x 9 containers, 22,979 cells; "
            "CimTypesIntImplArrayHeadShortcut must fail).",
@@ -616,6 +620,10 @@ ADDED4 = {
            "of provider instances, two spellings of one other namespace in "
            "the references of one association, three-namespace associations "
            "with some copies missing (Delete/ModifyInstance prechecks).",
+    "C13": "CreateInstance rejected because a copy exists (clause "
+           "Repository.UnchangedByRejectedCreate, AssocImplLegacyNoPreCheck "
+           "must fail), an association class whose superclass differs per "
+           "namespace (AssocImplLegacySubCache must fail).",
     "C14": "association filter arguments on the four association Opens "
            "(dimension flt: none / keeps all / drops some).",
     "C15": "filter class and OperationTimeout class of the call, case "
@@ -639,6 +647,8 @@ ADDED4 = {
            "SwitchOn.EnablingAnObserverNeverFails), 135 argument variants "
            "derived from the signatures of all 34 operations (locally "
            "rejected values; ObserverImplLegacyUnbound must fail).",
+    "C20": "(round 5) items() called twice per object (clause "
+           "Items.SameOnEveryCall, ValueMapImplLegacyItemsOnce must fail).",
 }
 
 
